@@ -137,6 +137,12 @@ def session_anomalies(case, out):
                 names.append(e[0] + (':' + e[1] if e[1] else ''))
         return '+'.join(names) or 'none'
     where = fault_calls()
+    exc = out['sessions'][-1]['exc']
+    if any(x['exc'] in ('ERuntime', 'EAssert') for x in out['sessions']):
+        res.append(('protocol-error-leaves-session:%s' % where, 'a RuntimeError (release of an unlocked lock) or AssertionError left the session (%s, faults [%s] = %s)' % (tag, faults, where)))
+    elif not case.get('faults') and case.get('start') != 'fresh' and all(x['exc'] != 'none' for x in out['sessions'][-1:]) \
+            and not any(op[0] == 'raise' for sh_ops in [[case['shape'], case['ops']]] + list(case.get('more', [])) for op in sh_ops[1]):
+        res.append(('fault-free-session-fails:%s' % exc, 'a session without any injected fault and without a raising body ends with %s (%s)' % (exc, tag)))
     if a['lock']:
         res.append(('lock-left-held:%s' % where, 'provider.transaction_lock is still held after the session (%s, faults at calls [%s] = %s)' % (tag, faults, where)))
     if a['prelock']:
@@ -164,6 +170,9 @@ def session_anomalies(case, out):
                 if e[0] == 'execute' and e[1] == 'begin' and e[3]: last_end = None
             if last_end is None:
                 res.append(('pooled-with-open-transaction:%s' % where, 'connection returned to the pool with an open transaction (%s, faults [%s] = %s)' % (tag, faults, where)))
+        ends = [e for e in evs if e[0] in ('commit', 'rollback')]
+        if ends and not ends[-1][3]:
+            res.append(('pooled-after-failed-%s:%s' % (ends[-1][0], where), 'the connection stays in the pool although its last %s() failed (%s, faults [%s] = %s)' % (ends[-1][0], tag, faults, where)))
         pr = out.get('pragmas')
         if pr and 'error' not in pr and (pr['fk'] != 1 or pr['case_sensitive_like'] != 1):
             res.append(('pool-keeps-half-initialised-connection:%s' % ('fk_on' if pr['fk'] != 1 else 'cslike'),
